@@ -585,24 +585,31 @@ theorem leoEncode_ok_sizes {c : Codec} (hc : CodecShape c) {s r : List Bytes} {k
                 simp only [ne_eq, Decidable.not_not] at hmod
                 omega
 
-theorem befpLeafNs_ok (k n : Nat) (sh : Bytes) (h : NS_SIZE ≤ sh.length) : ∃ o, befpLeafNs true k n sh = .ok o := by
+theorem befpLeafNs_cases (uf : Bool) (k n : Nat) (sh : Bytes) (h : NS_SIZE ≤ sh.length) :
+    (∃ o, befpLeafNs uf k n sh = .ok o) ∨ (uf = false ∧ befpLeafNs uf k n sh = .panic .befpUnwrap) := by
   unfold befpLeafNs
   split
   · have : ¬ sh.length < NS_SIZE := by omega
     simp only [this, ↓reduceIte]
-    split <;> exact ⟨_, rfl⟩
-  · exact ⟨_, rfl⟩
+    split
+    · exact Or.inl ⟨_, rfl⟩
+    · cases uf
+      · exact Or.inr ⟨rfl, rfl⟩
+      · exact Or.inl ⟨_, rfl⟩
+  · exact Or.inl ⟨_, rfl⟩
 
-theorem befpRebuild_ok (H : HashFn) (k : Nat) : ∀ (shares : List Bytes) (n : Nat) (hi : Bytes),
+/-- the rebuild loop can only panic at the `unwrap` (and not at all once that is fixed); the leaf hashes it
+    returns are in namespace order -/
+theorem befpRebuild_ok (uf : Bool) (H : HashFn) (k : Nat) : ∀ (shares : List Bytes) (n : Nat) (hi : Bytes),
     (∀ sh ∈ shares, NS_SIZE ≤ sh.length) →
-    (befpRebuild true H k shares n hi).isPanic = false ∧
-    (∀ hs, befpRebuild true H k shares n hi = .ok (some hs) →
+    (∀ t, befpRebuild uf H k shares n hi = .panic t → uf = false ∧ t = .befpUnwrap) ∧
+    (∀ hs, befpRebuild uf H k shares n hi = .ok (some hs) →
       MonoA hs ∧ (∀ x, hs.head? = some x → leB hi x.minNs = true)) := by
   intro shares
   induction shares with
   | nil =>
     intro n hi _
-    refine ⟨rfl, ?_⟩
+    refine ⟨(by intro t h; simp [befpRebuild] at h), ?_⟩
     intro hs h
     simp only [befpRebuild, Out.ok.injEq, Option.some.injEq] at h
     subst h
@@ -611,77 +618,116 @@ theorem befpRebuild_ok (H : HashFn) (k : Nat) : ∀ (shares : List Bytes) (n : N
     intro n hi hlen
     have hsh := hlen sh List.mem_cons_self
     have hrest : ∀ s ∈ rest, NS_SIZE ≤ s.length := fun s hs => hlen s (List.mem_cons_of_mem _ hs)
-    obtain ⟨o, ho⟩ := befpLeafNs_ok k n sh hsh
     unfold befpRebuild
-    rw [ho]
-    cases o with
-    | none => exact ⟨rfl, by intro hs h; cases h⟩
-    | some ns =>
-      simp only
-      by_cases hlt : ltB ns hi = true
-      · simp only [hlt, ↓reduceIte]
-        exact ⟨rfl, by intro hs h; cases h⟩
-      · simp only [hlt, Bool.false_eq_true, ↓reduceIte]
-        obtain ⟨ih1, ih2⟩ := ih (n + 1) ns hrest
-        cases hr : befpRebuild true H k rest (n + 1) ns with
-        | err => exact ⟨rfl, by intro hs h; cases h⟩
-        | panic s => rw [hr] at ih1; cases ih1
-        | ok r =>
-          cases r with
-          | none => exact ⟨rfl, by intro hs h; cases h⟩
-          | some hs0 =>
+    rcases befpLeafNs_cases uf k n sh hsh with ⟨o, ho⟩ | ⟨huf, hp⟩
+    · rw [ho]
+      cases o with
+      | none => exact ⟨(by intro t h; cases h), (by intro hs h; cases h)⟩
+      | some ns =>
+        simp only
+        by_cases hlt : ltB ns hi = true
+        · simp only [hlt, ↓reduceIte]
+          exact ⟨(by intro t h; cases h), (by intro hs h; cases h)⟩
+        · simp only [hlt, Bool.false_eq_true, ↓reduceIte]
+          obtain ⟨ih1, ih2⟩ := ih (n + 1) ns hrest
+          cases hr : befpRebuild uf H k rest (n + 1) ns with
+          | err => exact ⟨(by intro t h; cases h), (by intro hs h; cases h)⟩
+          | panic s =>
             simp only
-            refine ⟨rfl, ?_⟩
-            intro hs h
-            simp only [Out.ok.injEq, Option.some.injEq] at h
+            refine ⟨?_, by intro hs h; cases h⟩
+            intro t h
+            simp only [Out.panic.injEq] at h
             subst h
-            obtain ⟨hm, hh⟩ := ih2 hs0 hr
-            refine ⟨?_, ?_⟩
-            · rw [monoA_cons]
-              exact ⟨leB_refl _, fun y hy => hh y hy, hm⟩
-            · intro x hx
-              simp only [List.head?_cons, Option.some.injEq] at hx
-              subst hx
-              show leB hi ns = true
-              exact leB_of_not_ltB (by simpa using hlt)
+            exact ih1 s hr
+          | ok r =>
+            cases r with
+            | none => exact ⟨(by intro t h; cases h), (by intro hs h; cases h)⟩
+            | some hs0 =>
+              simp only
+              refine ⟨(by intro t h; cases h), ?_⟩
+              intro hs h
+              simp only [Out.ok.injEq, Option.some.injEq] at h
+              subst h
+              obtain ⟨hm, hh⟩ := ih2 hs0 hr
+              refine ⟨?_, ?_⟩
+              · rw [monoA_cons]
+                exact ⟨leB_refl _, fun y hy => hh y hy, hm⟩
+              · intro x hx
+                simp only [List.head?_cons, Option.some.injEq] at hx
+                subst hx
+                show leB hi ns = true
+                exact leB_of_not_ltB (by simpa using hlt)
+    · rw [hp]
+      simp only
+      refine ⟨?_, by intro hs h; cases h⟩
+      intro t h
+      simp only [Out.panic.injEq] at h
+      exact ⟨huf, h.symm⟩
 
-theorem befpSuffix_noPanic (H : HashFn) (c : Codec) (hc : CodecShape c) (p : Befp) (dah : Dah)
+/-- `validate` from the reconstruction on can only panic at the `unwrap` -/
+theorem befpSuffix_sites (uf : Bool) (H : HashFn) (c : Codec) (hc : CodecShape c) (p : Befp) (dah : Dah)
     (rebuilt : List Bytes) (k : Nat) (hlen : rebuilt.length = dah.rowRoots.length)
     (hk : k = dah.rowRoots.length / 2) (hidx : p.index < dah.rowRoots.length)
     (hrc : dah.rowRoots.length = dah.colRoots.length) :
-    (befpSuffix true H c p dah rebuilt k).isPanic = false := by
+    ∀ t, befpSuffix uf H c p dah rebuilt k = .panic t → uf = false ∧ t = .befpUnwrap := by
+  intro t
   unfold befpSuffix
   have hw : 1 ≤ dah.rowRoots.length := by omega
   have h1 := leoReconstruct_noPanic c rebuilt k (by omega)
   cases hr : leoReconstruct c rebuilt k with
   | panic s => rw [hr] at h1; cases h1
-  | err => rfl
+  | err => intro h; cases h
   | ok rec =>
     simp only
     have hrl := leoReconstruct_ok_length hc hr
     have h2 := leoEncode_noPanic c rec k (by omega) (by omega)
     cases he : leoEncode c rec k with
     | panic s => rw [he] at h2; cases h2
-    | err => rfl
+    | err => intro h; cases h
     | ok full =>
       simp only
       have hsz := leoEncode_ok_sizes hc he
-      obtain ⟨hb1, hb2⟩ := befpRebuild_ok H k full 0 (List.replicate NS_SIZE 0)
+      obtain ⟨hb1, hb2⟩ := befpRebuild_ok uf H k full 0 (List.replicate NS_SIZE 0)
         (fun sh hsh => by have := hsz sh hsh; unfold NS_SIZE; omega)
-      apply bind_noPanic hb1
-      intro hs? hhs
-      cases hs? with
-      | none => rfl
-      | some hs =>
-        simp only
-        have hfin : ∀ e : NsHash, ((ofNmt (computeRoot H true hs)).bind fun root =>
-            if (root == e) = true then Out.err else Out.ok ()).isPanic = false := by
-          intro e
-          apply bind_noPanic (ofNmt_noPanic (computeRoot_ne_panic H true hs (hb2 hs hhs).1))
-          intro _ _
-          split <;> rfl
-        have hr1 : dah.rowRoot? p.index = some dah.rowRoots[p.index] := List.getElem?_eq_getElem hidx
-        have hr2 : dah.colRoot? p.index = some (dah.colRoots[p.index]'(by omega)) := List.getElem?_eq_getElem (by omega)
-        cases p.axis <;> simp only [hr1, hr2] <;> exact hfin _
+      cases hrb : befpRebuild uf H k full 0 (List.replicate NS_SIZE 0) with
+      | panic s =>
+        intro h
+        simp only [Out.bind, Out.panic.injEq] at h
+        subst h
+        exact hb1 s hrb
+      | err => intro h; simp [Out.bind] at h
+      | ok hs? =>
+        simp only [Out.bind]
+        cases hs? with
+        | none => intro h; cases h
+        | some hs =>
+          simp only
+          have hfin : ∀ e : NsHash, ((ofNmt (computeRoot H true hs)).bind fun root =>
+              if (root == e) = true then Out.err else Out.ok ()).isPanic = false := by
+            intro e
+            apply bind_noPanic (ofNmt_noPanic (computeRoot_ne_panic H true hs (hb2 hs hrb).1))
+            intro _ _
+            split <;> rfl
+          have hr1 : dah.rowRoot? p.index = some dah.rowRoots[p.index] := List.getElem?_eq_getElem hidx
+          have hr2 : dah.colRoot? p.index = some (dah.colRoots[p.index]'(by omega)) := List.getElem?_eq_getElem (by omega)
+          intro h
+          exfalso
+          have hnp : ∀ e : NsHash, ((ofNmt (computeRoot H true hs)).bind fun root =>
+              if (root == e) = true then Out.err else Out.ok ()) ≠ .panic t := by
+            intro e hcon
+            have := hfin e
+            rw [hcon] at this
+            cases this
+          cases hax : p.axis <;> simp only [hax, hr1, hr2] at h <;> exact hnp _ h
+
+theorem befpSuffix_noPanic (H : HashFn) (c : Codec) (hc : CodecShape c) (p : Befp) (dah : Dah)
+    (rebuilt : List Bytes) (k : Nat) (hlen : rebuilt.length = dah.rowRoots.length)
+    (hk : k = dah.rowRoots.length / 2) (hidx : p.index < dah.rowRoots.length)
+    (hrc : dah.rowRoots.length = dah.colRoots.length) :
+    (befpSuffix true H c p dah rebuilt k).isPanic = false := by
+  cases h : befpSuffix true H c p dah rebuilt k with
+  | ok _ => rfl
+  | err => rfl
+  | panic t => exact absurd (befpSuffix_sites true H c hc p dah rebuilt k hlen hk hidx hrc t h).1 (by simp)
 
 end Lumina.Proofs.Decoders
